@@ -258,7 +258,7 @@ theorem never_folded (e : Env) (h : e.compileMode = true) :
 
 theorem macro_free_runAt (B : Builtins) (b : Nat) (env : Env) (code : List Instr) (resolve : Bool) (log : Log) :
     runAt B (b + 1) env code resolve log =
-      match loop B (runAt B b) (runAt B b) env code (blockFuel code) 0 { stack := [], log := log } with
+      match loop B (runAt B b) (runFresh B) env code (blockFuel code) 0 { stack := [], log := log } with
       | .fail a l => { res := .error a, log := l }
       | .ok _ s => finish (runAt B b) env resolve s := rfl
 
@@ -426,12 +426,12 @@ theorem path_eval (b : Nat) (env : Env) (r : Str) (fs : List Str) (log : Log)
                 | .err k => .error (.err k)
                 | v => .ok v),
         log := log } := by
-  have hrun := run_fields (B := B) (recTop := runAt B b) (rec := runAt B b) env hb fs [.push (.ident r)]
+  have hrun := run_fields (B := B) (recTop := runFresh B) (rec := runAt B b) env hb fs [.push (.ident r)]
     (.ident r) (blockFuel (pathCode r fs) - 1) log
     (by simp only [blockFuel, pathCode, List.length_cons, fieldsCode_length]; omega) hc (.inl ⟨r, rfl, hp⟩) hok
-  have hfirst : loop B (runAt B b) (runAt B b) env (pathCode r fs) (blockFuel (pathCode r fs)) 0
+  have hfirst : loop B (runAt B b) (runFresh B) env (pathCode r fs) (blockFuel (pathCode r fs)) 0
       { stack := [], log := log } =
-      loop B (runAt B b) (runAt B b) env ([.push (.ident r)] ++ fieldsCode fs) (blockFuel (pathCode r fs) - 1) 1
+      loop B (runAt B b) (runFresh B) env ([.push (.ident r)] ++ fieldsCode fs) (blockFuel (pathCode r fs) - 1) 1
         { stack := [.val (.ident r)], log := log } := by
     have : blockFuel (pathCode r fs) = (blockFuel (pathCode r fs) - 1) + 1 := by simp [blockFuel]
     rw [this, loop]
